@@ -247,6 +247,12 @@ func runC05(ctx *harness.Ctx) {
 			return ctx.ViolationCount() < 6
 		})
 	})
+	ctx.Leg("size-sweep-2d", func() {
+		forSweep2(ctx, func(entry, src string, a, b int) bool {
+			one(nil, "size-sweep-2d", entryByName[entry], src)
+			return ctx.ViolationCount() < 6
+		})
+	})
 	ctx.Rapid("generated-list", ctx.Pick(1000, 20000), func(t *rapid.T) {
 		n := rapid.IntRange(2, 3).Draw(t, "n")
 		var parts []string
